@@ -711,7 +711,7 @@ def native(f, args, kw):
         raise
     except RecursionError:
         raise
-    except BaseException as e:
+    except Exception as e:
         raise E.PyRaise(lift_exception(e))
 
 
